@@ -286,6 +286,57 @@ func (e *Exec) libModel(st *State, callee *ssa.Function, cc *ssa.CallCommon, arg
 		e.store(st, args[0], nv)
 		set(Val{T: tBool, S: ok})
 		return true, true, nil
+	case "(*sync.Once).Do":
+		// runs the function unless this Once has fired before; the flag is the real field done.v
+		if args[1].Fn == nil {
+			break
+		}
+		used()
+		ot := cc.Args[0].Type().Underlying().(*types.Pointer).Elem()
+		fidx := func(t types.Type, name string) int {
+			u := t.Underlying().(*types.Struct)
+			for i := 0; i < u.NumFields(); i++ {
+				if u.Field(i).Name() == name {
+					return i
+				}
+			}
+			return -1
+		}
+		di := fidx(ot, "done")
+		if di < 0 {
+			break
+		}
+		doneAddr := e.fieldAddrOf(st, args[0], ot, di, pos)
+		dt := ot.Underlying().(*types.Struct).Field(di).Type()
+		flagAddr := doneAddr
+		if _, isStruct := dt.Underlying().(*types.Struct); isStruct {
+			vi := fidx(dt, "v")
+			if vi < 0 {
+				break
+			}
+			flagAddr = e.fieldAddrOf(st, doneAddr, dt, vi, pos)
+		}
+		cur := e.load(st, flagAddr)
+		zero := e.sc.zero(cur.T)
+		fired := e.sc.define("oncefired", "Bool", not(eq(cur.S, zero)))
+		s1 := st.clone()
+		s1.pc = e.sc.define("pc", "Bool", and(st.pc, fired))
+		s2 := st.clone()
+		s2.pc = e.sc.define("pc", "Bool", and(st.pc, not(fired)))
+		ok2, soft := e.inlineCall(s2, args[1].Fn, args[1], nil, nil)
+		var live []*State
+		live = append(live, s1)
+		if ok2 {
+			one := "#x00000001"
+			if e.mode != ModeBV {
+				one = "1"
+			}
+			e.store(s2, flagAddr, Val{T: cur.T, S: one})
+			live = append(live, s2)
+		}
+		m := e.merge(live, "once")
+		*st = *m
+		return true, true, soft
 	case "container/list.New", "(*container/list.List).Len", "(*container/list.List).PushFront", "(*container/list.List).PushBack",
 		"(*container/list.List).Back", "(*container/list.List).Front", "(*container/list.List).MoveToFront", "(*container/list.List).Remove":
 		if e.listModel(st, name, cc, args, resT, set) {
